@@ -125,6 +125,8 @@ def clone_val(v):
     k = v.kind
     if k in ("bv", "bool", "opaque", "str", "ref", "vacant", "box"):
         return v
+    if k == "u8buf":
+        return Val("u8buf", items=list(v.items))
     if k in ("struct", "enum"):
         n = Val(k, **{a: b for a, b in v.__dict__.items() if a not in ("kind", "fields")})
         n.fields = [clone_val(x) for x in v.fields]
@@ -152,7 +154,8 @@ def NONE():
     return mk_enum("Option", "None", 0, [])
 
 
-KNOWN_ENUMS = {"Option": {"None": 0, "Some": 1}, "Result": {"Ok": 0, "Err": 1}, "Entry": {"Occupied": 0, "Vacant": 1}}
+KNOWN_ENUMS = {"Option": {"None": 0, "Some": 1}, "Result": {"Ok": 0, "Err": 1}, "Entry": {"Occupied": 0, "Vacant": 1},
+               "ControlFlow": {"Continue": 0, "Break": 1}}
 
 
 def eq_expr(a, b):
@@ -214,6 +217,9 @@ def parse_place(s):
     s = s.strip()
     if re.fullmatch(r"_\d+", s):
         return ("local", s)
+    m = re.match(r"^(.*)\[(_\d+)\]$", s)
+    if m:
+        return ("index", parse_place(m.group(1)), m.group(2))
     if s.startswith("(") and _match_paren(s, 0) == len(s) - 1:
         inner = s[1:-1].strip()
         if inner.startswith("*"):
@@ -400,6 +406,18 @@ class Interp:
             if place[2] >= len(v.fields):
                 raise Unsupported("field index %d out of range for %s" % (place[2], getattr(v, "name", v.kind)))
             return v.fields, place[2]
+        if k == "index":
+            lst, i = self.lv(place[1], fr)
+            v = lst[i]
+            ix = fr.locals[place[2]][0]
+            n = self.concretise(ix, "array index")
+            if v is not None and v.kind == "u8buf":
+                if n >= len(v.items) or any(not isinstance(x, Val) for x in v.items[:n + 1]):
+                    raise Unsupported("index %d into a byte buffer past a variable-length chunk" % n)
+                return v.items, n
+            if v is not None and v.kind == "vec":
+                return v.items, n
+            raise Unsupported("index into %r" % (v,))
         if k == "downcast":
             lst, i = self.lv(place[1], fr)
             v = lst[i]
@@ -428,13 +446,22 @@ class Interp:
     # ------------------------------------------------------------------ rvalues
     def rvalue(self, rhs, fr):
         rhs = rhs.strip()
-        m = re.match(r"^(AddWithOverflow|SubWithOverflow|MulWithOverflow|Add|Sub|Mul|Rem|Div|Eq|Ne|Lt|Le|Gt|Ge|BitAnd|BitOr|BitXor|Shl|Shr|AddUnchecked|SubUnchecked)\((.*)\)$", rhs)
+        m = re.match(r"^(AddWithOverflow|SubWithOverflow|MulWithOverflow|Add|Sub|Mul|Rem|Div|Eq|Ne|Lt|Le|Gt|Ge|BitAnd|BitOr|BitXor|AddUnchecked|SubUnchecked)\((.*)\)$", rhs)
         if m:
             a, b = [self.operand(x, fr) for x in split_top(m.group(2))]
             r = _SymexExec.binop(None, m.group(1), a, b, False)
             if r.kind == "tuple":
                 return Val("struct", name="(ovf)", fields=[self.fold(x) for x in r.items])
             return self.fold(r)
+        m = re.match(r"^(Shl|Shr|ShlUnchecked|ShrUnchecked)\((.*)\)$", rhs)
+        if m:
+            a, b = [self.operand(x, fr) for x in split_top(m.group(2))]
+            y = b.s if b.w == a.w else ("((_ zero_extend %d) %s)" % (a.w - b.w, b.s) if b.w < a.w else "((_ extract %d 0) %s)" % (a.w - 1, b.s))
+            return self.fold(BV(a.w, "(%s %s %s)" % ("bvshl" if m.group(1).startswith("Shl") else "bvlshr", a.s, y)))
+        m = re.match(r"^PtrMetadata\((.*)\)$", rhs)
+        if m:
+            v = self.deref(self.operand(m.group(1), fr))
+            return self.length_of(v)
         m = re.match(r"^Not\((.*)\)$", rhs)
         if m:
             a = self.operand(m.group(1), fr)
@@ -459,7 +486,7 @@ class Interp:
             if v.kind != "enum" or v.idx is None:
                 raise Unsupported("discriminant of %r" % (v,))
             return BV(64, bv(64, v.idx))
-        m = re.match(r"^&(?:mut |raw const |raw mut )?(.*)$", rhs)
+        m = re.match(r"^&(?:mut |raw const \(fake\) |raw const |raw mut )?(.*)$", rhs)
         if m:
             lst, i = self.lv(parse_place(m.group(1)), fr)
             return Val("ref", lst=lst, idx=i)
@@ -484,7 +511,7 @@ class Interp:
         if m and m.group(2) in self.enums and m.group(3) in self.enums[m.group(2)]:
             flds = [self.operand(x, fr) for x in split_top(m.group(4))] if m.group(4) else []
             return mk_enum(m.group(2), m.group(3), self.enums[m.group(2)][m.group(3)], flds)
-        m = re.match(r"^((?:\w+::)*\w+) \{ (.*) \}$", rhs)
+        m = re.match(r"^((?:\w+::)*\w+(?:::<.*?>)?) \{ (.*) \}$", rhs)
         if m:
             return Val("struct", name=m.group(1), fields=[self.operand(p.split(":", 1)[1], fr) for p in split_top(m.group(2))])
         m = re.match(r"^((?:\w+::)*[A-Z]\w*)::([A-Z]\w*)\((.*)\)$", rhs)
@@ -639,6 +666,27 @@ class Interp:
             return self.call_fn(target, a)
         return self.stub(c, a)
 
+    def length_of(self, v):
+        if v.kind == "vec":
+            return BV(64, bv(64, len(v.items)))
+        if v.kind == "bytes":
+            e = bv(64, 0)
+            for _tok, ln in v.chunks:
+                e = "(bvadd %s %s)" % (e, ln)
+            return self.fold(BV(64, e))
+        if v.kind == "u8buf":
+            n, sym = 0, []
+            for x in v.items:
+                if isinstance(x, Val):
+                    n += 1
+                else:
+                    sym.append(x[2])
+            e = bv(64, n)
+            for ln in sym:
+                e = "(bvadd %s %s)" % (e, ln)
+            return self.fold(BV(64, e))
+        raise Unsupported("length of " + v.kind)
+
     def closure_fn(self, cl):
         name = getattr(cl, "name", None)
         if cl.kind == "ref":
@@ -677,6 +725,88 @@ class Interp:
             if v is None or v.kind != "vec":
                 raise Unsupported("vec from an uninitialised box")
             return v
+        if re.search(r"HashSet::<.*>::new$", c):
+            return Val("map", entries=[])
+        if re.search(r"HashSet::<.*>::insert$", c):
+            st = D(a[0])
+            j = self.lookup(st, a[1], "HashSet::insert")
+            if j is None:
+                st.entries.append([a[1], OPAQUE("unit")])
+                return BOOL("true")
+            return BOOL("false")
+        if re.search(r"HashSet::<.*>::contains::<", c):
+            return BOOL("true" if self.lookup(D(a[0]), a[1], "HashSet::contains") is not None else "false")
+        if re.search(r"HashSet::<.*>::(len)$", c):
+            return BV(64, bv(64, len(D(a[0]).entries)))
+        if re.search(r"HashSet::<.*>::is_empty$", c):
+            return BOOL("true" if not D(a[0]).entries else "false")
+        if re.search(r"HashSet::<.*>::iter$", c):
+            self.assumptions_used.add("HashSet iteration visits elements in insertion order (any order is a legal header; the oracle reads the order back from the output)")
+            st = D(a[0])
+            return Val("iter", items=[Val("ref", lst=e, idx=0) for e in st.entries], pos=[0], sub=None)
+        if re.search(r" as Iterator>::copied::<", c):
+            it = a[0]
+            return Val("iter", items=[x.lst[x.idx] if x.kind == "ref" else x for x in it.items[it.pos[0]:]], pos=[0], sub=None)
+        if re.search(r" as Iterator>::enumerate$", c):
+            it = a[0]
+            return Val("iter", items=[Val("struct", name="(tuple)", fields=[BV(64, bv(64, k)), x]) for k, x in enumerate(it.items[it.pos[0]:])], pos=[0], sub=None)
+        if re.search(r" as Iterator>::any::<", c):
+            it = D(a[0])
+            f = self.closure_fn(a[1])
+            while it.pos[0] < len(it.items):
+                x = it.items[it.pos[0]]
+                it.pos[0] += 1
+                r = self.call_fn(f, [Val("ref", lst=[a[1]], idx=0), x])
+                if self.branch(r.s, "Iterator::any predicate"):
+                    return BOOL("true")
+            return BOOL("false")
+        m = re.search(r" as Iterator>::(find|all|position|count)(::<.*>)?$", c)
+        if m and D(a[0]).kind == "iter":
+            it = D(a[0])
+            op = m.group(1)
+            if op == "count":
+                n = len(it.items) - it.pos[0]
+                it.pos[0] = len(it.items)
+                return BV(64, bv(64, n))
+            f = self.closure_fn(a[1])
+            k = 0
+            while it.pos[0] < len(it.items):
+                x = it.items[it.pos[0]]
+                it.pos[0] += 1
+                arg = Val("ref", lst=[x], idx=0) if op == "find" else x
+                r = self.call_fn(f, [Val("ref", lst=[a[1]], idx=0), arg])
+                t = self.branch(r.s, "Iterator::%s predicate" % op)
+                if op == "find" and t:
+                    return SOME(x)
+                if op == "position" and t:
+                    return SOME(BV(64, bv(64, k)))
+                if op == "all" and not t:
+                    return BOOL("false")
+                k += 1
+            return BOOL("true") if op == "all" else NONE()
+        if re.search(r"^<std::ops::Range<usize> as IntoIterator>::into_iter$", c):
+            return a[0]
+        if re.search(r"^<std::ops::Range<usize> as Iterator>::next$", c):
+            r = D(a[0])
+            lo, hi = r.fields[0], r.fields[1]
+            more = self.fold(BOOL("(bvult %s %s)" % (lo.s, hi.s))).s
+            if self.branch(more, "Range::next"):
+                r.fields[0] = self.fold(BV(64, "(bvadd %s %s)" % (lo.s, bv(64, 1))))
+                return SOME(lo)
+            return NONE()
+        if re.search(r"^<std::iter::Map<.*> as Iterator>::sum::<usize>$", c):
+            mi = a[0]
+            it = mi.inner
+            f = self.closure_fn(mi.closure)
+            e = bv(64, 0)
+            while it.pos[0] < len(it.items):
+                x = it.items[it.pos[0]]
+                it.pos[0] += 1
+                r = self.call_fn(f, [Val("ref", lst=[mi.closure], idx=0), x])
+                e = "(bvadd %s %s)" % (e, r.s)
+            return self.fold(BV(64, e))
+        if re.search(r"HashMap::<.*>::get::<", c) and False:
+            pass
         if re.search(r"BTreeMap::<.*>::new$", c):
             return Val("map", entries=[])
         if re.search(r"BTreeMap::<.*>::insert$", c):
@@ -748,6 +878,54 @@ class Interp:
             return OPAQUE("fmt")
         if re.search(r"^<S as Into<SequenceId>>::into$|as Into<(\w+::)*SequenceId>>::into$", c):
             return a[0]
+        # ---- byte buffers (BytesMut / Vec<u8> being written): single bytes are 8-bit expressions, opaque chunks keep (token, length)
+        if re.search(r"BytesMut::(new|with_capacity)$", c):
+            return Val("u8buf", items=[])
+        m = re.search(r"<BytesMut as BufMut>::put_(u8|u16|u32|u64|slice)$", c)
+        if m:
+            b = D(a[0])
+            if b.kind != "u8buf":
+                raise Unsupported("put on " + b.kind)
+            if m.group(1) == "slice":
+                src = D(a[1])
+                if src.kind == "bytes":
+                    b.items.extend(("chunk", tk, ln) for tk, ln in src.chunks)
+                elif src.kind == "u8buf":
+                    b.items.extend(src.items)
+                else:
+                    raise Unsupported("put_slice of " + src.kind)
+            else:
+                w = int(m.group(1)[1:])
+                v = a[1]
+                for k in range(w // 8 - 1, -1, -1):
+                    b.items.append(self.fold(BV(8, "((_ extract %d %d) %s)" % (8 * k + 7, 8 * k, v.s))))
+            return OPAQUE("unit")
+        if re.search(r"BytesMut::len$", c):
+            return self.length_of(D(a[0]))
+        if re.search(r"<BytesMut as Deref(Mut)?>::deref(_mut)?$", c):
+            return a[0]
+        if re.search(r"slice::<impl \[u8\]>::to_vec$|<BytesMut as Into<Vec<u8>>>::into$|BytesMut::freeze$", c):
+            return clone_val(D(a[0]))
+        if re.search(r"<Arc<str> as Deref>::deref$|core::str::<impl str>::as_bytes$|<std::string::String as Deref>::deref$", c):
+            return a[0]
+        if re.search(r"core::str::<impl str>::len$|slice::<impl \[u8\]>::len$", c):
+            return self.length_of(D(a[0]))
+        # ---- the `?` operator
+        if re.search(r" as Try>::branch$", c):
+            v = a[0]
+            if v.kind != "enum" or v.ename not in ("Result", "Option"):
+                raise Unsupported("Try::branch on %r" % (v,))
+            good = (v.ename == "Result" and v.idx == 0) or (v.ename == "Option" and v.idx == 1)
+            if good:
+                return mk_enum("ControlFlow", "Continue", 0, [v.fields[0]])
+            return mk_enum("ControlFlow", "Break", 1, [v])
+        if re.search(r" as FromResidual<.*>>::from_residual$", c):
+            v = a[0]
+            if v.kind == "enum" and v.ename == "Result":
+                return mk_enum("Result", "Err", 1, list(v.fields))
+            if v.kind == "enum" and v.ename == "Option":
+                return NONE()
+            raise Unsupported("from_residual of %r" % (v,))
         # ---- mem / clone
         if re.match(r"^std::mem::replace::<", c):
             r = a[0]
@@ -1108,7 +1286,7 @@ def _split_assign(st):
             d -= 1
         elif d == 0 and st.startswith(" = ", i):
             lhs = st[:i].strip()
-            if re.match(r"^(_\d+|\(.*\))$", lhs):
+            if re.match(r"^(_\d+|\(.*\)(\[_\d+\])?|_\d+\[_\d+\])$", lhs):
                 return lhs, st[i + 3:]
             return None
     return None
